@@ -51,6 +51,7 @@ type Site struct {
 	Name    string // feeder: partial name
 	Late    bool   // written inside a contentFor block (runs later, through contentOf)
 	Ambig   bool   // C15: which tag "contains the failing statement" is not determined by the property text
+	Ctx     string // innermost enclosing body: if-body, else-body, for-body, fn-body, block-helper-block, htmlEscape-block, contentFor-block, contentOf-default-block, partial, layout, top
 }
 
 // Program is one generated workload.
@@ -139,6 +140,7 @@ type gen struct {
 	pdepth    int             // partial nesting depth
 	nest      int             // > 0 inside any block body or partial
 	siteLog   []*Site         // every site created, in order
+	ctx       []string        // stack of enclosing bodies
 	elseIf    bool
 }
 
@@ -156,7 +158,7 @@ func (g *gen) fresh(prefix string) string {
 
 func (g *gen) newSite(k probeKind, class string, want kind) *Site {
 	g.nextID++
-	s := &Site{ID: g.nextID, Kind: k, Tmpl: g.cur.name, Class: class, ElseIf: g.elseIf, Frames: g.frames, Want: want, Late: g.late}
+	s := &Site{ID: g.nextID, Kind: k, Tmpl: g.cur.name, Class: class, ElseIf: g.elseIf, Frames: g.frames, Want: want, Late: g.late, Ctx: g.curCtx()}
 	g.p.Sites[s.ID] = s
 	g.pending = append(g.pending, s)
 	g.siteLog = append(g.siteLog, s)
@@ -603,6 +605,20 @@ func (g *gen) nl() {
 	}
 }
 
+func (g *gen) curCtx() string {
+	if len(g.ctx) == 0 {
+		return "top"
+	}
+	return g.ctx[len(g.ctx)-1]
+}
+
+// body generates a nested list of pieces labelled with the kind of body it is.
+func (g *gen) body(kind string, depth, max int) {
+	g.ctx = append(g.ctx, kind)
+	g.pieces(depth, max)
+	g.ctx = g.ctx[:len(g.ctx)-1]
+}
+
 func (g *gen) pushScope() int { return len(g.scope) }
 func (g *gen) popScope(n int) { g.scope = g.scope[:n] }
 
@@ -754,7 +770,7 @@ func (g *gen) ifPiece(depth int) {
 	g.tag(open, "if ("+g.expr(kBool, 2, "if-condition")+") {", "%>")
 	g.nl()
 	sc := g.pushScope()
-	g.pieces(depth-1, 2)
+	g.body("if-body", depth-1, 2)
 	g.popScope(sc)
 	nei := g.size("nelseif", 0, 2)
 	for i := 0; i < nei; i++ {
@@ -766,7 +782,7 @@ func (g *gen) ifPiece(depth int) {
 		g.tag("<%", "} else if ("+cond+") {", "%>")
 		g.nl()
 		sc := g.pushScope()
-		g.pieces(depth-1, 2)
+		g.body("else-if-body", depth-1, 2)
 		g.popScope(sc)
 	}
 	if g.pct("else", 50) {
@@ -774,7 +790,7 @@ func (g *gen) ifPiece(depth int) {
 		g.tag("<%", "} else {", "%>")
 		g.nl()
 		sc := g.pushScope()
-		g.pieces(depth-1, 2)
+		g.body("else-body", depth-1, 2)
 		g.popScope(sc)
 	}
 	g.tag("<%", "}", "%>")
@@ -815,7 +831,7 @@ func (g *gen) forPiece(depth int) {
 		sc := g.pushScope()
 		g.scope = append(g.scope, variable{name: iv, k: kStr}, variable{name: vv, k: ek})
 		g.inFor++
-		g.pieces(depth-1, 2)
+		g.body("for-body", depth-1, 2)
 		g.inFor--
 		g.popScope(sc)
 		g.tag("<%", "}", "%>")
@@ -837,7 +853,7 @@ func (g *gen) forPiece(depth int) {
 		g.tag("<%", "}", "%>")
 		g.nl()
 	}
-	g.pieces(depth-1, 2)
+	g.body("for-body", depth-1, 2)
 	g.inFor--
 	g.popScope(sc)
 	g.tag("<%", "}", "%>")
@@ -952,7 +968,7 @@ func (g *gen) fnPiece(depth int) {
 		g.tag("<%", "let "+name+" = fn("+a+") {", "%>")
 		g.nl()
 		g.scope = append(g.scope, variable{name: a, k: kStr})
-		g.pieces(depth-1, 2)
+		g.body("fn-body", depth-1, 2)
 		g.popScope(sc)
 		g.tag("<%", "}", "%>")
 		g.nl()
@@ -1008,7 +1024,7 @@ func (g *gen) blockHelperPiece(depth int) {
 		g.tag("<%=", "pb(0) {", "%>")
 		g.nl()
 		sc := g.pushScope()
-		g.pieces(depth-1, 2)
+		g.body("block-helper-block", depth-1, 2)
 		g.popScope(sc)
 		g.tag("<%", "}", "%>")
 		return
@@ -1024,7 +1040,7 @@ func (g *gen) blockHelperPiece(depth int) {
 		g.nl()
 		sc := g.pushScope()
 		g.scope = append(g.scope, variable{name: "bw", k: kInt})
-		g.pieces(depth-1, 2)
+		g.body("block-helper-block", depth-1, 2)
 		g.popScope(sc)
 		g.tag("<%", "}", "%>")
 		return
@@ -1033,7 +1049,7 @@ func (g *gen) blockHelperPiece(depth int) {
 	g.tag(g.outTag(), fmt.Sprintf("pb(%d) {", s.ID), "%>")
 	g.nl()
 	sc := g.pushScope()
-	g.pieces(depth-1, 2)
+	g.body("block-helper-block", depth-1, 2)
 	g.popScope(sc)
 	g.tag("<%", "}", "%>")
 }
@@ -1044,7 +1060,7 @@ func (g *gen) builtinBlockPiece(depth int) {
 	g.tag("<%=", `htmlEscape("") {`, "%>")
 	g.nl()
 	sc := g.pushScope()
-	g.pieces(depth-1, 2)
+	g.body("htmlEscape-block", depth-1, 2)
 	g.popScope(sc)
 	g.tag("<%", "}", "%>")
 }
@@ -1065,7 +1081,7 @@ func (g *gen) contentPiece(depth int) {
 		wasLate := g.late
 		g.late = true
 		g.scope = append(g.scope, variable{name: "label", k: kStr})
-		g.pieces(depth-1, 2)
+		g.body("contentFor-block", depth-1, 2)
 		g.late = wasLate
 		g.popScope(sc)
 		g.tag("<%", "}", "%>")
@@ -1079,7 +1095,7 @@ func (g *gen) contentPiece(depth int) {
 			g.tag("<%=", `contentOf("`+name+`", {"label": `+g.expr(kStr, 1, "hash-value")+"}) {", "%>")
 			g.nl()
 			sc := g.pushScope()
-			g.pieces(depth-1, 1)
+			g.body("contentOf-default-block", depth-1, 1)
 			g.popScope(sc)
 			g.tag("<%", "}", "%>")
 		} else {
@@ -1105,7 +1121,7 @@ func (g *gen) contentPiece(depth int) {
 		g.tag("<%=", `contentOf("`+undef+`") {`, "%>")
 		g.nl()
 		sc := g.pushScope()
-		g.pieces(depth-1, 2)
+		g.body("contentOf-default-block", depth-1, 2)
 		g.popScope(sc)
 		g.tag("<%", "}", "%>")
 	}
@@ -1122,13 +1138,13 @@ func (g *gen) partialPiece(depth int) {
 	}
 	// the call, in the current template
 	g.frames = 0
-	fs := &Site{Kind: pkFeeder, Tmpl: g.cur.name, Class: "partial", Name: name, Late: g.late}
+	fs := &Site{Kind: pkFeeder, Tmpl: g.cur.name, Class: "partial", Name: name, Late: g.late, Ctx: g.curCtx()}
 	g.p.FeederSites[name] = fs
 	g.pending = append(g.pending, fs)
 	g.siteLog = append(g.siteLog, fs)
 	data := `"pa": ` + g.expr(kInt, 1, "hash-value") + `, "ps": ` + g.expr(kStr, 1, "hash-value")
 	if layout != "" {
-		ls := &Site{Kind: pkFeeder, Tmpl: g.cur.name, Class: "layout", Name: layout, Late: g.late}
+		ls := &Site{Kind: pkFeeder, Tmpl: g.cur.name, Class: "layout", Name: layout, Late: g.late, Ctx: g.curCtx()}
 		g.p.FeederSites[layout] = ls
 		g.pending = append(g.pending, ls)
 		g.siteLog = append(g.siteLog, ls)
@@ -1151,12 +1167,12 @@ func (g *gen) partialPiece(depth int) {
 		g.pdepth++
 		if isLayout {
 			g.text()
-			g.pieces(1, 2)
+			g.body("layout", 1, 2)
 			g.tag("<%=", "yield", "%>")
 			g.nl()
-			g.pieces(1, 2)
+			g.body("layout", 1, 2)
 		} else {
-			g.pieces(depth-1, 3)
+			g.body("partial", depth-1, 3)
 		}
 		g.text()
 		g.pdepth--
@@ -1211,7 +1227,7 @@ func (g *gen) noisePiece() {
 func (g *gen) tolerantPiece(depth int) {
 	g.feat("tolerant")
 	g.frames = 0
-	if g.nest > 0 || g.pct("tolerated", 75) {
+	if g.nest > 0 || g.pct("tolerated", 50) {
 		c := g.intn("tol", 0, 7)
 		var cls, body string
 		switch c {
